@@ -109,6 +109,56 @@ theorem accepted_specification_roundtrip {text : String} {s : Specification}
 theorem accepted_user_guide_roundtrip {text : String} {u : UserGuide} (h : Fol.parseUserGuide text = some u) :
     Fol.parseUserGuide (printUserGuide u) = some u := Fol.accepted_user_guide_roundtrip h
 
+/-- **The round trips for the parsers as they are** (grammar + range check of numerals and arities, since
+    the numeral-range fix). -/
+theorem accepted_theory_roundtrip_checked {text : String} {t : Theory} (h : Fol.parseTheoryChecked text = some t) :
+    Fol.parseTheoryChecked (printTheory t) = some t := by
+  unfold Fol.parseTheoryChecked at h
+  cases h0 : Fol.parseTheory text with
+  | none => simp [h0] at h
+  | some t0 =>
+    simp only [h0] at h
+    split at h
+    · rename_i hr
+      injection h with h
+      subst h
+      unfold Fol.parseTheoryChecked
+      rw [accepted_theory_roundtrip h0]
+      simp only [hr, if_true]
+    · cases h
+
+theorem accepted_specification_roundtrip_checked {text : String} {s : Specification}
+    (h : Fol.parseSpecificationChecked text = some s) : Fol.parseSpecificationChecked (printSpecification s) = some s := by
+  unfold Fol.parseSpecificationChecked at h
+  cases h0 : Fol.parseSpecification text with
+  | none => simp [h0] at h
+  | some t0 =>
+    simp only [h0] at h
+    split at h
+    · rename_i hr
+      injection h with h
+      subst h
+      unfold Fol.parseSpecificationChecked
+      rw [accepted_specification_roundtrip h0]
+      simp only [hr, if_true]
+    · cases h
+
+theorem accepted_user_guide_roundtrip_checked {text : String} {u : UserGuide}
+    (h : Fol.parseUserGuideChecked text = some u) : Fol.parseUserGuideChecked (printUserGuide u) = some u := by
+  unfold Fol.parseUserGuideChecked at h
+  cases h0 : Fol.parseUserGuide text with
+  | none => simp [h0] at h
+  | some t0 =>
+    simp only [h0] at h
+    split at h
+    · rename_i hr
+      injection h with h
+      subst h
+      unfold Fol.parseUserGuideChecked
+      rw [accepted_user_guide_roundtrip h0]
+      simp only [hr, if_true]
+    · cases h
+
 /-- … and printing the re-parsed tree gives the same text again. -/
 theorem theory_print_parse_print {text : String} {t : Theory} (h : Fol.parseTheory text = some t) :
     (Fol.parseTheory (printTheory t)).map printTheory = some (printTheory t) := by
